@@ -252,6 +252,18 @@ func init() {
 				}}
 				r.Sim(f.Decl, f.Name(), spec)
 			}
+			// a new run abandons whatever the previous run left pending: RegisterSourceSplitter (called by
+			// Job.start for every run) clears the pending slot on every path, savepoint or not; a
+			// survivor would be completed by late acknowledgements of the previous assembly and block
+			// every new checkpoint until then
+			rs := r.P.Func("storage/snapshots", "(*Store).RegisterSourceSplitter")
+			r.Site(rs.Decl.Pos(), "RegisterSourceSplitter abandons the pending snapshot")
+			if n := r.assignsFieldOnAllPaths(rs.Decl, rs.Name(), pend, func(c *pathsim.Ctx, rhs ast.Expr) bool {
+				tv, ok := c.Info.Types[rhs]
+				return ok && tv.IsNil()
+			}, "abandon-pending", "a restart can keep the previous run's pending snapshot: acknowledgements of the old assembly can complete it and it blocks new checkpoints (ErrCheckpointInProgress)"); n == 0 {
+				r.Fail(rs.Name()+":abandon-pending:none", rs.Decl.Pos(), nil, "RegisterSourceSplitter no longer clears the pending snapshot of the previous run")
+			}
 			// isComplete: conjunction over both flag maps
 			ic := r.P.Func("storage/snapshots", "(*jobSnapshot).isComplete")
 			info := ic.Pkg.TypesInfo
